@@ -56,3 +56,10 @@ CASES += [
          "        return spect\n\n        \n    def one_transition_spectrum(self,tr):",
          "        npoints = len(self.frequencyAxis.data)\n        return spect\n\n        \n    def one_transition_spectrum(self,tr):", 1)]},
 ]
+
+CASES += [
+    {"name": "exciton widths read the eigenvector matrix transposed (the repaired defect)", "kind": "mutant", "rule": "C11-I", "edits": [
+        ("quantarhei/builders/aggregate_base.py", "                    Wd_a[ii] += (self.Wd[nn,nn]**2)*abs(SS[nn,ii])**4", "                    Wd_a[ii] += (self.Wd[nn,nn]**2)*abs(SS[ii,nn])**4", 1)]},
+    {"name": "exciton dephasings read the eigenvector matrix transposed", "kind": "mutant", "rule": "C11-I", "edits": [
+        ("quantarhei/builders/aggregate_base.py", "                    Dr_a[ii] += (self.Dr[nn,nn]**2)*abs(SS[nn,ii])**4", "                    Dr_a[ii] += (self.Dr[nn,nn]**2)*abs(SS[ii,nn])**4", 1)]},
+]
